@@ -87,16 +87,21 @@ def rule_instances(ctx):
                         v2 = _pushed_value(c, cb, {"args": [None, ct["args"][v[1] - 1]]})
                         if v2 and v2[0] == "const":
                             recorded.add(v2[1])
-    for r in REASONS:
-        ctx.check(r in recorded, R, "recorded:" + r, "reason %s has a recording site" % r,
-                  bad_desc="no site records the close reason %s" % r)
+    structurally_recorded = set(recorded)
     ctx.extra_coverage["push_sites"] = ["%s@%s" % (b.short, b.loc(t["src"])) for b, bb, t in sites]
 
     I = mk_interp(prog, opaque=OPAQUE, event_hook=_push_hook(), max_states=120000)
 
+    seen_reasons = set()
+
     def run(body, args, init):
         try:
-            return I.run(body, args, init)
+            outs_ = I.run(body, args, init)
+            for o_ in outs_:
+                for e_ in o_.state.events:
+                    if e_[0] == "push" and isinstance(e_[1], str) and not e_[1].startswith("?"):
+                        seen_reasons.add(e_[1])
+            return outs_
         except (PathLimit, Unsupported) as e:
             ctx.incomplete(R, "interp:" + body.short, str(e))
             return []
@@ -235,6 +240,12 @@ def rule_instances(ctx):
                   loc=body_loc(pr), detail=sorted(set(bad))[:6])
 
 
+    # every reason is recorded somewhere: as a constant at a push site, or observed as the value pushed on an abstract path
+    for r in REASONS:
+        ctx.check(r in structurally_recorded or r in seen_reasons, R, "recorded:" + r, "reason %s has a recording site" % r,
+                  bad_desc="no site records the close reason %s" % r)
+
+
 def rule_who_writes(ctx):
     R = "R10.2"
     prog = ctx.prog
@@ -333,12 +344,21 @@ def _latch_of(b, bb):
         t = b.blocks[p]["term"]
         if t["k"] == "switch" and t["discr"]["k"] in ("copy", "move"):
             loc = t["discr"]["place"]["local"]
+            # follow plain copies (`let already = list.iter().any(..); if already { return }`)
+            for _k in range(3):
+                src_ = [s_["rv"]["op"]["place"]["local"] for blk_ in b.blocks for s_ in blk_["stmts"]
+                        if s_["k"] == "assign" and s_["place"]["local"] == loc and not s_["place"]["proj"] and s_["rv"]["k"] == "use"
+                        and s_["rv"]["op"].get("k") in ("copy", "move") and not s_["rv"]["op"]["place"]["proj"]]
+                if len(src_) == 1:
+                    loc = src_[0]
+                else:
+                    break
             # find defining call: contains(...) possibly negated
             for bi, blk in enumerate(b.blocks):
                 tt = blk["term"]
                 if tt["k"] == "call" and tt["dest"]["local"] == loc and not tt["dest"]["proj"]:
                     pth = short(callee_path(tt) or "")
-                    if pth.endswith("<impl [T]>::contains") or pth.endswith("Iterator::any"):
+                    if pth.endswith("<impl [T]>::contains") or pth.endswith("::any"):
                         # edge into `cur` must be the false edge (value 0)
                         vals = [int(v) for v, tb in t["targets"] if tb == cur]
                         if vals == [0] and t["otherwise"] != cur:
@@ -353,7 +373,7 @@ def _latch_of(b, bb):
                                 t2 = blk2["term"]
                                 if t2["k"] == "call" and t2["dest"]["local"] == l2:
                                     pth = short(callee_path(t2) or "")
-                                    if pth.endswith("<impl [T]>::contains") or pth.endswith("Iterator::any"):
+                                    if pth.endswith("<impl [T]>::contains") or pth.endswith("::any"):
                                         vals = [int(v) for v, tb in t["targets"] if tb == cur]
                                         if (vals and 0 not in vals) or t["otherwise"] == cur:
                                             return t2
